@@ -358,7 +358,7 @@ func randomXExpo(r *rand.Rand, sc int, tw *vh.TraceWriter, res *vh.Result) {
 	c.MaxScale = r.Intn(31) - 10
 	xclass := "in-range"
 	if r.Intn(2) == 0 {
-		xclass = pick(r, "maxscale>20", "maxscale<-10", "maxsize<=0", "maxsize-huge")
+		xclass = pick(r, "maxscale>20", "maxscale<-10", "maxsize<=0", "maxsize-large")
 		switch xclass {
 		case "maxscale>20":
 			c.MaxScale = pick(r, 21, 22, 25, 31, 32, 64, 100, math.MaxInt32)
@@ -367,7 +367,7 @@ func randomXExpo(r *rand.Rand, sc int, tw *vh.TraceWriter, res *vh.Result) {
 		case "maxsize<=0":
 			c.MaxSize = pick(r, 0, 0, -1, -5)
 		default:
-			c.MaxSize = 100000
+			c.MaxSize = 1000
 		}
 	}
 	class := pick(r, "wide", "narrow", "narrow", "pow2")
